@@ -678,7 +678,7 @@ func (fc *FontConfigurationGotext) splitFirstLine(hyphenCache map[HyphenDictKey]
 				firstLine = newFirstLine
 				firstLine.Length -= len(hyphenateCharacter) // do not consider hyphen for length
 				firstLine.ResumeAt = len(newFirstLineText)
-				if text[firstLine.ResumeAt] == softHyphen {
+				if firstLine.ResumeAt < len(text) && text[firstLine.ResumeAt] == softHyphen {
 					// Recreate the layout with no maxWidth to be sure that
 					// we don't break before the soft hyphen
 					firstLine.Layout = fc.wrap(hyphenatedFirstLineText, style, pr.Inf).Layout
@@ -694,7 +694,7 @@ func (fc *FontConfigurationGotext) splitFirstLine(hyphenCache map[HyphenDictKey]
 			hyphenated = true
 			firstLine = fc.wrap(hyphenatedFirstLineText, style, pr.Inf)
 			firstLine.ResumeAt = len(newFirstLineText)
-			if text[firstLine.ResumeAt] == softHyphen {
+			if firstLine.ResumeAt < len(text) && text[firstLine.ResumeAt] == softHyphen {
 				firstLine.ResumeAt += 1
 			}
 		}
